@@ -101,6 +101,7 @@ package morass
 //@   ensures [cursor]     result == nil && old(m.chunk) != nil ==> m.pos == 0
 //@   ensures [sorted]     result == nil && old(m.chunk) != nil && old(m.pos) < cap(old(m.chunk)) ==> m.fast && m.chunk == old(m.chunk)
 //@                        && forall i int, j int :: 0 <= i && i < j && j < len(m.chunk) ==> !lessOf(m.chunk[j], m.chunk[i])
+//@   ensures [flushed]    result == nil && old(m.chunk) != nil && old(m.pos) >= cap(old(m.chunk)) ==> len(m.chunk) == 0
 //@   ensures [len]        m.len == old(m.len)
 //@   ensures [failure]    ioFailures(0) > old(ioFailures(0)) ==> result != nil
 //@   loop 1 invariant 0 <= idx && wfNoChunk(m) && m.len == old(m.len) && m.pos == 0 && !m.fast && ioFailures(0) == old(ioFailures(0))
